@@ -75,6 +75,36 @@ def tlc_enum(ctx, cfg):
     return parse(r)
 
 
+def tlc_perm(ctx):
+    """the parameter-binding family of Pytket.tla (mode "perm") with TLC's expectations"""
+    empty = os.path.join(ctx.workdir, "empty_perm.json")
+    json.dump([], open(empty, "w"))
+    r = ctx.tlc("Pytket", "Pytket_perm.cfg", env={"VERIF_CASES": empty}, timeout=ctx.pick(900, 3000))
+    if not r.ok:
+        raise lib.Machinery("Pytket/perm failed:\n" + r.error)
+    fam = next((p["family"] for p in r.printed if "family" in p), None)
+    _, _, out, _ = parse(r)
+    if fam is None or sorted(c["cid"] for c in out) != list(range(1, len(fam) + 1)):
+        raise lib.Machinery(f"Pytket/perm: family of {fam and len(fam)} cases, {len(out)} expectations")
+    info = {f["cid"]: f for f in fam}
+    for c in out:
+        f = info[c["cid"]]
+        c["label"] = f"perm:{'>'.join(f['occ'])}:{f['layout']}"
+        c["occ"], c["noninvolutive"] = f["occ"], f["noninvolutive"]
+    # vacuity (also an ASSUME of the spec): every order of 3 symbols, non-involutive orders for 3 and 4
+    occ3 = {tuple(c["occ"]) for c in out if len(c["occ"]) == 3}
+    if len(occ3) != 6 or not any(c["noninvolutive"] and len(c["occ"]) == n for n in (3, 4) for c in out) \
+            or not all(any(c["noninvolutive"] and len(c["occ"]) == n for c in out) for n in (3, 4)):
+        raise lib.Machinery("Pytket/perm: the family does not contain the discriminating occurrence orders")
+    return out
+
+
+def non_involutive(order):
+    """is position j |-> lexicographic rank of order[j] a permutation that is not its own inverse?"""
+    rank = [sorted(order).index(x) for x in order]
+    return any(rank[rank[j]] != j for j in range(len(order)))
+
+
 def tlc_cases(ctx, cases):
     path = os.path.join(ctx.workdir, f"pk_cases_{len(os.listdir(ctx.workdir))}.json")
     json.dump(cases, open(path, "w"))
@@ -92,6 +122,7 @@ def execute(ctx, prep, shapes, cases, validate_every=10):
     for i, c in enumerate(cases):
         sh = shapes[c["shape"] - 1]
         jobs.append({"key": f"k{i}", "shape": sh, "ops": c["ops"], "nparams": len(c["params"]), "prep": prep,
+                     "want_param_order": "label" in c,
                      "force": forced(sh, c["ops"]),
                      # symbolic circuits do not validate with the installed tket (its circuit takes
                      # `rotation` parameters, /repo passes float half-turns): dependency mismatch
@@ -152,6 +183,8 @@ def check_circuits(ctx, prep, shapes, cases, viol, stats):
         for way, why in judge(c, r):
             cat = "prep" if not c["ops"] else c["ops"][0]["g"] if len(c["ops"]) == 1 else "multi"
             key = f"shape{c['shape']}/{way}/{cat}" + (f"/sym{len(c['params'])}" if c["params"] else "")
+            if "label" in c:
+                key = f"shape{c['shape']}/{way}/{c['label']}"
             viol.setdefault(key, []).append(
                 (f"{circ_text(sh, c['ops'])} via {way}: {why}",
                  {"shape": sh, "shape_id": c["shape"], "ops": c["ops"], "params": c["params"],
@@ -267,14 +300,23 @@ def run(ctx):
         except BaseException as e:  # noqa: BLE001
             box["error"] = e
 
+    def evaluate_perm():
+        try:
+            box["perm"] = tlc_perm(ctx)
+        except BaseException as e:  # noqa: BLE001
+            box["error"] = e
+
     # (the worker pool is forked by this first map_jobs call, before the thread exists)
     check_sigs(ctx, shapes, stubs, viol, stats)
     ctx.log(f"signatures checked: {stats['signatures']}")
     th = threading.Thread(target=evaluate)
+    th2 = threading.Thread(target=evaluate_perm)
     th.start()
+    th2.start()
     check_circuits(ctx, prep, shapes, keep, viol, stats)
     ctx.log(f"enumerated circuits: {len(keep)} of {len(cases)} replayed, findings {len(viol)}")
     th.join()
+    th2.join()
     if "error" in box:
         raise box["error"]
     expect = box["expect"]
@@ -288,6 +330,17 @@ def run(ctx):
         br = sorted(by_cid[cid], key=lambda e: json.dumps(e["ops"], sort_keys=True))
         chosen += br if not ctx.quick else [rng.choice(br)]
     check_circuits(ctx, prep, shapes, chosen, viol, stats)
+    # parameter binding: >= 3 symbols first occurring in every order
+    perm = box["perm"]
+    pres = check_circuits(ctx, prep, shapes, perm, viol, stats)
+    orders = [r.get("param_order") for r in pres]
+    if any(o is None or sorted(o) != sorted(c["params"]) for o, c in zip(orders, perm)):
+        raise lib.Machinery(f"TKET1.input_parameters missing or not the circuit's symbols: {orders[:3]}")
+    real_noninv = {n: sum(1 for o in orders if len(o) == n and non_involutive(o)) for n in (3, 4)}
+    if not all(real_noninv.values()):
+        raise lib.Machinery("parameter-binding family is vacuous with the installed tket: no circuit whose "
+                            f"TKET1.input_parameters order is a non-involutive permutation ({real_noninv})")
+    ctx.log(f"parameter-binding family: {len(perm)} circuits, findings {len(viol)}")
     for n, (k, lst) in enumerate(sorted(viol.items())):
         if n >= 60:
             break
@@ -304,6 +357,9 @@ def run(ctx):
         "enumerated_depth1": len(cases), "sampled_longer": len(sampled), "sampled_branches_run": len(chosen),
         "with_symbols": sum(1 for c in keep + chosen if c["params"]),
         "with_two_symbols": sum(1 for c in keep + chosen if len(c["params"]) == 2),
+        "perm_family": len(perm), "perm_family_noninvolutive_spec": sum(1 for c in perm if c["noninvolutive"]),
+        "perm_family_noninvolutive_in_tket_metadata": real_noninv,
+        "perm_family_distinct_metadata_orders": len({tuple(o) for o in orders}),
         "with_measure": sum(1 for c in keep + chosen if any(o["g"] == "measure" for o in c["ops"])),
         "signatures_checked": stats["signatures"], "signatures_expected_accept": stats["sig_accept"],
         "shapes": [circ_text(s, []) for s in shapes],
